@@ -100,5 +100,5 @@ def executed_flags(steps, env, defaults=None):
             out.append(False)
             continue
         flags, req, bad = m.effective(st.get('inline'))
-        out.append(Machine.runs(flags, req) and st['form'] != 'comment')
+        out.append(Machine.runs(flags, req) and st['form'] not in ('comment', 'blankprompt'))
     return out
